@@ -61,6 +61,10 @@ fn start_contract<const L: usize>()
 #[kani::proof] #[kani::unwind(6)] fn k_tracker_event_start_l4() { start_contract::<4>(); }
 //# id=K.tracker.event.start.L5 props=C03,C12 strength=complete shape="parked list L=5, all contents" tier=thorough fns=EventAccessTracker::start
 #[kani::proof] #[kani::unwind(7)] fn k_tracker_event_start_l5() { start_contract::<5>(); }
+//# id=K.tracker.event.start.L6 props=C03,C12 strength=complete shape="parked list L=6, all contents" tier=thorough fns=EventAccessTracker::start
+#[kani::proof] #[kani::unwind(8)] fn k_tracker_event_start_l6() { start_contract::<6>(); }
+//# id=K.tracker.event.start.L7 props=C03,C12 strength=complete shape="parked list L=7, all contents" tier=thorough fns=EventAccessTracker::start
+#[kani::proof] #[kani::unwind(9)] fn k_tracker_event_start_l7() { start_contract::<7>(); }
 
 // ---------------------------------------------------------------------------------------------------------------
 // K.reader.event: BroadcastEvent<T>::try_read / EntityEvent<T>::{try_read,get_entity} (C03, C04).
